@@ -25,7 +25,7 @@ RULE = ("files x read options x short handle histories. Files: W = written by fa
         "different options (a changed option followed by the default read; every ordered pair in "
         "thorough) against a fresh handle. Oracle: columns / dtypes / categories / cats / _get_index / count / "
         "num_rows / info versus the frame returned, versus every frame of iter_row_groups, versus head(), and "
-        "versus the predictions of every sliced handle pf[i]; non-trivial = a read that returned >= 1 row and was "
+        "versus the predictions and counts of every sliced handle pf[i]; non-trivial = a read that returned >= 1 row and was "
         "compared")
 ASSUMPTIONS = ["dtype compared by kind + width + nullable-extension-ness + category-ness",
                "under pandas 3 the category dtype is read from the column's array (DataFrame.dtypes can be stale)",
@@ -391,7 +391,13 @@ def compare(c, pf_factory, what, datacols, partcols=(), index_names=(), dict_col
                     # ---- handles derived from this one predict what the whole dataset predicts
                     try:
                         for gi in range(len(m["rg"])):
-                            sub = pf[gi]._dtypes(carg)
+                            h1 = pf[gi]
+                            # the sliced handle's own counts are those of its row group
+                            c1, i1 = h1.count(), h1.info["rows"]
+                            if c1 != m["rg"][gi] or i1 != m["rg"][gi]:
+                                c.bad("slice_count", "%s: pf[%d].count()=%r, info rows %r, its row group holds %d rows" % (
+                                    what, gi, c1, i1, m["rg"][gi]))
+                            sub = h1._dtypes(carg)
                             diff = [k for k in m["dtypes"] if k not in sub
                                     or norm_dtype(sub[k]) != norm_dtype(m["dtypes"][k])]
                             if diff or list(sub) != list(m["dtypes"]):
